@@ -191,3 +191,46 @@ PROPS['C20'] = {
                   'insensitivity of v2 payloads, password-only vs password+keyfile distinct (under injectivity), KDB lone element. The model (with Lean\'s own SHA-256, base64, '
                   'hex, UTF-8) is compared with an independent reference derivation and with the real library through save/parse of independently built files.',
 }
+
+
+def make_merge_judge(pid):
+    def judge(case, out):
+        v = []
+        real = case['real']
+        for k in real:
+            if isinstance(real[k], dict) and str(real[k].get('outcome', '')).startswith('panic'):
+                real[k]['outcome'] = 'panic'
+        d = diff_path(real, out.get('model'), 'real-vs-model')
+        if d:
+            v.append(('DISAGREE', 'merge', d))
+        for f in out.get('specfail', []) or []:
+            if f[0].startswith('merge:%s:' % pid):
+                v.append(('SPECFAIL', f[0], '%s | A: %s | B: %s' % (f[1], case['edits_a'], case['edits_b'])))
+        return v or [('AGREE', '', '')]
+    return judge
+
+
+MERGE_RULE = ('replica pairs derived from the ancestor root{e10, G1{e11, S1{}}, G2{}} by edit histories over the alphabet {edit entry + commit, '
+              'uncommitted edit, add entry, add group, move entry, move group, delete entry + tombstone, delete group recursively with tombstones in '
+              'parent-first or child-first order, rename group, touch group}; logical clock with distinct seconds; all pairs of histories of length <= 1 '
+              '(exhaustive), plus random histories up to length 3x4 (quick: 2000, thorough: 20000) and, thorough only, all pairs of length 1x2 and 2x1; '
+              'each pair: merge, merge again, self-merge of the result, self-merge of the destination, under a 3 s watchdog; '
+              'non-trivial = the merge reported an event, failed, or the source carries tombstones; distinct by hash of the two edit histories')
+MERGE_ASSUME = ['history items carry no history of their own (C17) and time stamps are whole seconds',
+                'content tokens = interned canonical dumps of every field other than uuid/times/history(/children)']
+for pid, txt, part in [
+    ('C13', 'Kernel-checked component idempotence (history union, entry merge, group merge). Global idempotence is validated by the exhaustive/randomised '
+            'enumeration on the real code and on the faithful model.',
+     ['C13_twice (global idempotence for all replica pairs) is stated but not proved; proved: component-level idempotence']),
+    ('C14', 'Kernel-checked component theorems (history union is sorted, duplicate-free and contains both sides; last-writer-wins for entries and groups). '
+            'The flat last-writer-wins reference (MergeSpec) is evaluated on the real result of every enumerated pair.',
+     ['C14_refines (faithful model = flat reference for all replica pairs) is stated but not proved; the reference is evaluated as an oracle on every enumerated pair (a test)']),
+    ('C15', 'Kernel-checked: tombstone list only grows (prefix), boundary deletion_time = mtime keeps the node; clauses (no resurrection, present xor tombstoned, '
+            'deleted iff newer and empty) are evaluated on the real result of every enumerated pair.',
+     ['group_deleted_iff for every tombstone order is validated by enumeration (both orders), not proved']),
+    ('C16', 'Kernel-checked: the repaired deletion queue terminates within the stated fuel on every input (no outOfFuel), structural termination of merge_group; '
+            'soundness clauses (unique UUIDs, nothing lost) are evaluated on the real result of every enumerated pair under a watchdog.',
+     ['uniqueUuids/conserved invariants of merge_group are validated by enumeration, not proved']),
+]:
+    PROPS[pid] = {'ops': ['merge'], 'judge': make_merge_judge(pid), 'rule': MERGE_RULE, 'assumptions': MERGE_ASSUME,
+                  'level_text': txt, 'partial': part, 'timeout': 3000, 'exhaustive': {'quick': False, 'thorough': False}}
